@@ -159,7 +159,42 @@ class Unit:
         return NotImplemented
 
     def vstack_seq(self, interp, seq, line):
-        return NotImplemented
+        """np.vstack of a list of 2-D blocks with a symbolic number of blocks: an order-preserving bijection between
+        table rows and (block, row-in-block) pairs (assumed numpy contract); an empty list raises ValueError."""
+        ctx = interp.ctx
+        Lb = to_z3(seq.length)
+        ok = Lb >= 1
+        ctx.oblige(f'{interp.cur_func}.vstack-nonempty@{line}', ok, kind='raises', line=line)
+        ctx.assume(ok)
+        probe = seq.fn(z3.Int(ctx.name('probe')))
+        if not isinstance(probe, STensor) or probe.ndim != 2 or is_sym(probe.shape[1]):
+            raise Unsupported('vstack of a symbolic list of non-2-D blocks')
+        ncols = probe.shape[1]
+        R = ctx.fresh_int('vs_rows')
+        blk = ctx.fresh_fun('vs_blk', z3.IntSort(), z3.IntSort())
+        row = ctx.fresh_fun('vs_row', z3.IntSort(), z3.IntSort())
+        flat = ctx.fresh_fun('vs_flat', z3.IntSort(), z3.IntSort(), z3.IntSort())
+        r, r2, j, q = z3.Int(ctx.name('r')), z3.Int(ctx.name('r')), z3.Int(ctx.name('j')), z3.Int(ctx.name('q'))
+        nrows = lambda jj: to_z3(seq.fn(jj).shape[0])  # noqa: E731
+        ctx.assume(R >= 0)
+        ctx.assume(z3.ForAll([r], z3.Implies(z3.And(r >= 0, r < R),
+                                             z3.And(blk(r) >= 0, blk(r) < Lb, row(r) >= 0, row(r) < nrows(blk(r)), flat(blk(r), row(r)) == r)),
+                             patterns=[blk(r), row(r)]))
+        cell_pats = []
+        for c in range(ncols):
+            e = to_z3(seq.fn(j).at(q, c))
+            if z3.is_app(e) and e.decl().kind() == z3.Z3_OP_UNINTERPRETED and _pure(e, j) == (True, True) and _pure(e, q) == (True, True):
+                cell_pats.append(e)
+        ctx.assume(z3.ForAll([j, q], z3.Implies(z3.And(j >= 0, j < Lb, q >= 0, q < nrows(j)),
+                                                z3.And(flat(j, q) >= 0, flat(j, q) < R, blk(flat(j, q)) == j, row(flat(j, q)) == q)),
+                             patterns=[flat(j, q)] + cell_pats[:2]))
+        ctx.assume(z3.ForAll([r, r2], z3.Implies(z3.And(r >= 0, r < r2, r2 < R),
+                                                 z3.Or(blk(r) < blk(r2), z3.And(blk(r) == blk(r2), row(r) < row(r2)))),
+                             patterns=[z3.MultiPattern(blk(r), blk(r2))]))
+        ctx.use('numpy.vstack(list of blocks): rows of the result are the block rows, in block order then row order')
+        out = STensor((R, ncols), lambda a, b: seq.fn(blk(to_z3(a))).at(row(to_z3(a)), b), probe.dtype)
+        out.vstack = {'blk': blk, 'row': row, 'flat': flat, 'R': R}
+        return out
 
     def arange_hook(self, interp, args, line):
         return NotImplemented
@@ -302,7 +337,8 @@ class Unit:
                 return interp.call_builtin('int' if (args and getattr(args[0], 'kind', None) == 'int') else 'float', [base], {}, line)
         if kind == 'seq':
             if meth == 'append':
-                raise Unsupported('append to symbolic list outside a loop invariant')
+                base.append(args[0])
+                return None
         raise Unsupported(f'bound method {name}', line)
 
     # ------------------------------------------------------------------------------------------
@@ -506,8 +542,10 @@ class Unit:
         n0, n1 = to_z3(t.shape[0]), to_z3(t.shape[1])
         tf = t.fn
         rng = z3.And(i >= 0, i < n0, j >= 0, j < n1)
-        ctx.assume(z3.ForAll([i, j, k], z3.Implies(z3.And(rng, k >= 0, k <= j), PM(i, j) >= to_z3(tf(i, k)))),
+        ax1 = lambda ii, jj, kk: z3.Implies(z3.And(ii >= 0, ii < n0, jj >= 0, jj < n1, kk >= 0, kk <= jj), PM(ii, jj) >= to_z3(tf(ii, kk)))  # noqa: E731
+        ctx.assume(z3.ForAll([i, j, k], ax1(i, j, k)),
                    tag='numpy.maximum.accumulate: prefix maximum (upper bound of the prefix, attained in the prefix)')
+        ctx.inst_axioms.append((3, ax1))
         ctx.assume(z3.ForAll([i, j], z3.Implies(rng, z3.And(ARG(i, j) >= 0, ARG(i, j) <= j,
                                                             PM(i, j) == to_z3(tf(i, ARG(i, j))))), patterns=[PM(i, j)]))
         return STensor(t.shape, lambda a, b: PM(to_z3(a), to_z3(b)), t.dtype)
@@ -547,6 +585,9 @@ class Unit:
 
     def unique(self, interp, t, return_counts, axis, line):
         ctx = interp.ctx
+        if getattr(t, 'parts', None) and not return_counts:
+            ctx.use('numpy.unique(concatenate(index vectors)) = ascending vector of the union of the index sets')
+            return V.sidx_union(ctx, t.parts)
         if t.ndim == 1 or axis is None:
             if t.ndim != 1:
                 t = self.np.m_flatten(interp, line, t)
